@@ -1940,6 +1940,10 @@ pub fn build(full_name: &str, level: u8) -> Option<Scenario> {
                 s.clients_at = vec![1];
                 s.transfer_targets = vec![3];
                 s.cc_menu = vec![CcSpec::V1(1, 3), CcSpec::V1(2, 3)];
+                if n.contains("-dem2") {
+                    // one joint change demotes the leader itself and the transfer target
+                    s.cc_menu = vec![CcSpec::V2(0, vec![(2, 1), (2, 3)])];
+                }
             }
             if n.contains("-lag2") {
                 // the same lagging target is asked for twice
